@@ -1,7 +1,7 @@
 #!/bin/bash
 # tools/try_mutant.sh <patch.diff> <Cnn> [more props...]: apply a seeded change to /repo, run the quick checks, always revert.
 P=$(realpath "$1"); shift
-cd /verif
+cd "$(dirname "$0")/.."
 if [ -n "$(git -C /repo status --porcelain -- qstrader)" ]; then echo "/repo is dirty; refusing"; exit 9; fi
 trap 'git -C /repo checkout -- . >/dev/null 2>&1' EXIT
 git -C /repo apply "$P" || { echo "patch does not apply"; exit 8; }
